@@ -401,6 +401,54 @@ fn main() {
     if ladders_ok.contains(&"selectRestore") {
         let _ = write!(thms, "theorem dispatch_total_restore (c : Cfg) (cpu : Cpu) :\n    ((List.range dispatchSites).all fun i => dispatchArms.any fun a => a.1 == i && a.2.1 c && a.2.2.1 == (HH.selectRestore c cpu).tag) = true := by\n{split}\n");
     }
+    // ---- the collection builder (src/hash.rs): `build_hasher` must forward the stored key to the ladder of `new`, the
+    // struct must hold nothing but the key (a cached tag or hasher would be a second source of the selection)
+    {
+        let hpath = std::path::Path::new(&args[1]).with_file_name("hash.rs");
+        let r: R<()> = (|| {
+            let hsrc = std::fs::read_to_string(&hpath).map_err(|e| format!("hash.rs: {e}"))?;
+            let hfile = syn::parse_file(&hsrc).map_err(|e| format!("hash.rs: {e}"))?;
+            let mut fields_ok = false;
+            let mut fwd_ok = false;
+            let mut ctor_ok = false;
+            for it in &hfile.items {
+                match it {
+                    Item::Struct(st) if st.ident == "HighwayBuildHasher" => {
+                        let names: Vec<String> = st.fields.iter().filter_map(|f| f.ident.as_ref().map(|i| i.to_string())).collect();
+                        fields_ok = names == ["key"];
+                    }
+                    Item::Impl(im) => {
+                        let t = &im.self_ty;
+                        if quote::quote!(#t).to_string() != "HighwayBuildHasher" {
+                            continue;
+                        }
+                        for ii in &im.items {
+                            let ImplItem::Fn(f) = ii else { continue };
+                            let body = { let b = &f.block; quote::quote!(#b).to_string().replace(' ', "") };
+                            if f.sig.ident == "build_hasher" {
+                                fwd_ok = body == "{HighwayHasher::new(self.key)}";
+                            }
+                            if f.sig.ident == "new" && im.trait_.is_none() {
+                                ctor_ok = body == "{HighwayBuildHasher{key}}" || body == "{Self{key}}";
+                            }
+                        }
+                    }
+                    _ => {}
+                }
+            }
+            if !fields_ok {
+                return Err("HighwayBuildHasher holds more than the key".into());
+            }
+            if !fwd_ok {
+                return Err("build_hasher is not `HighwayHasher::new(self.key)`".into());
+            }
+            if !ctor_ok {
+                return Err("HighwayBuildHasher::new does not just store the key".into());
+            }
+            Ok(())
+        })();
+        status.push(("HighwayBuildHasher::build_hasher".into(), match r { Ok(()) => "translated".into(), Err(e) => format!("skipped: {e}") }));
+    }
     out.push_str("/-! ### theorems -/\n\n");
     out.push_str(&thms);
     out.push_str("end HH.Gen.Ladder\n");
